@@ -265,14 +265,17 @@ class SigmaNumberInit(Contract):
                 r = I.fresh(name, "int")
                 I.E._c07_num[name] = r
                 return r
-            return NativeFn(name, f)
+            nf = NativeFn(name, f)
+            if name == "int":          # isinstance(raw, int): whether the raw value is an integer is an unknown of the document
+                nf.isinstance_hook = lambda I, v: I.E._c07_num["raw_is_int"].t
+            return nf
         E.builtins = dict(E.builtins)
         E.builtins["float"] = conv("float")
         E.builtins["int"] = conv("int")
         E.externals["math.isfinite"] = lambda I, a, k: I.E._c07_num.setdefault("finite", I.fresh("isfinite", "bool"))
 
     def args(self, I):
-        I.E._c07_num = {}
+        I.E._c07_num = {"raw_is_int": I.fresh("raw_is_int", "bool")}
         me = SObj(I.E.index.lookup("sigma.types:SigmaNumber"), {})
         return {"self": me, "args": [I.fresh("raw", "opaque", "Scalar")]}
 
@@ -284,7 +287,13 @@ class SigmaNumberInit(Contract):
         if "float" in n and "int" in n and "finite" in n:
             c.require(n["finite"].t, "inf / nan are rejected")
             num = me.fields.get("number")
-            c.require(num is not None and ops.kind_of(num) == "int" and ops.mk_bool_term(ops.py_eq(I, num, n["float"])), "the stored number has the value of float(raw) (as int where that is exact)")
+            ok = num is not None and ops.kind_of(num) == "int"
+            c.require(ok, "a number is stored")
+            if ok:
+                # from the property (C03: a number keeps its content): an integer is stored as exactly that integer - also where float() would
+                # round it (D38); anything else has the value of float(raw), as int where that is exact
+                c.require(z3.If(n["raw_is_int"].t, ops.mk_bool_term(ops.py_eq(I, num, n["int"])), ops.mk_bool_term(ops.py_eq(I, num, n["float"]))),
+                          "an integer is stored as that integer (whatever float() makes of it); any other number has the value of float(raw)")
 
     def raises(self, I, inp, exc):
         I.ctx.require(exc_is(I, exc, "SigmaValueError"), f"only SigmaValueError (got {exc_name(exc)})", kind="SAFE")
